@@ -22,6 +22,10 @@ pub(crate) struct PeerSim {
     pub connected: bool,
     /// does not answer anything (used for timeout scenarios)
     pub silent: bool,
+    /// a peer that lies consistently about filters: BlockFilters and BlockFilterHashes answers
+    /// come from this (doctored) chain of the world, everything else (incl. check points) from
+    /// its real chain
+    pub filter_chain: Option<usize>,
 }
 
 #[derive(Clone, Debug)]
@@ -64,6 +68,7 @@ impl World {
             version: ProofVersion::V0,
             connected: false,
             silent: false,
+            filter_chain: None,
         });
     }
     pub(crate) fn peer(&self, id: usize) -> &PeerSim {
@@ -85,6 +90,7 @@ impl World {
             _ => return vec![],
         };
         let view = View::new(&self.chains[peer.chain], peer.height);
+        let filter_view = View::new(&self.chains[peer.filter_chain.unwrap_or(peer.chain)], peer.height);
         let mut out = vec![];
         let mut push = |proto: Proto, data: Bytes, note: String| {
             out.push(InFlight {
@@ -134,7 +140,7 @@ impl World {
                         let start: u64 = r.start_number().unpack();
                         push(
                             Proto::Filter,
-                            view.block_filters(start, self.filter_batch).as_bytes(),
+                            filter_view.block_filters(start, self.filter_batch).as_bytes(),
                             format!("BlockFilters({})", start),
                         )
                     }
@@ -142,7 +148,7 @@ impl World {
                         let start: u64 = r.start_number().unpack();
                         push(
                             Proto::Filter,
-                            view.block_filter_hashes(start, self.hashes_batch).as_bytes(),
+                            filter_view.block_filter_hashes(start, self.hashes_batch).as_bytes(),
                             format!("BlockFilterHashes({})", start),
                         )
                     }
